@@ -70,6 +70,19 @@ Theorem c13_no_registration_left_any_opids : forall tk b ops dl dk n evs s i o,
 Proof. exact done_no_entry. Qed.
 Print Assumptions c13_no_registration_left_any_opids.
 
+(** a request whose FContext carries a malformed op id (a negative number in the model; getOpID fails)
+    registers nothing - Register refuses it (before the repair it was registered under key 0, which
+    Unregister could never remove: the NATS Request returned getOpID's error and left a registration
+    behind) - so also this exit path leaves the registry as it found it *)
+Theorem c13_malformed_opid_registers_nothing : forall tk b s i,
+  (i < ncallers s)%nat -> c_phase (callers s i) = CNew -> c_op (callers s i) < 0 ->
+  (tk = KNats -> c_data (callers s i) <> DEmpty) ->
+  exists s', step tk b s (ERegister i) = Some s'
+    /\ c_phase (callers s' i) = match tk with KNats => CDone ORegErr | KAdapter => CParked end
+    /\ reg s' = reg s /\ rd s' = rd s /\ (forall k, k <> i -> callers s' k = callers s k).
+Proof. exact malformed_opid_registers_nothing. Qed.
+Print Assumptions c13_malformed_opid_registers_nothing.
+
 (** every positive timeout is stored as at least one millisecond, so ToContext gives it a deadline
     (before the repair a timeout below 1 ms became 0 = "no deadline": DESIGN.md F12) *)
 Theorem c13_positive_timeout_has_deadline : forall ns, 0 < ns -> 0 < Context.quot_ms ns.
